@@ -17,11 +17,14 @@ class Tracer:
         self.raises = Counter()
         self.pkg = None
         self.on = False
+        self._last_exc = None
         # scanner step accounting (reset per parse by the property code)
         self.next_mark_calls = 0
         self.next_mark_depth = 0
         self.next_mark_maxdepth = 0
         self.aborts = 0            # BlockAbortedException origins
+        self.steps = 0             # repository function entries since reset_scan()
+        self.budget = None         # when set: raise StepBudgetExceeded beyond it
 
     def start(self):
         import bibtexparser
@@ -51,6 +54,7 @@ class Tracer:
         self.next_mark_depth = 0
         self.next_mark_maxdepth = 0
         self.aborts = 0
+        self.steps = 0
 
     def _py_start(self, code, off):
         fn = code.co_filename
@@ -58,6 +62,10 @@ class Tracer:
             return sys.monitoring.DISABLE
         name = code.co_qualname
         self.calls[name] += 1
+        self.steps += 1
+        if self.budget is not None and self.steps > self.budget:
+            self.budget = None
+            raise StepBudgetExceeded(f"more than the allowed number of repository function entries; last: {name}")
         if name == "Splitter._next_mark":
             self.next_mark_calls += 1
             self.next_mark_depth += 1
@@ -75,12 +83,22 @@ class Tracer:
             self.next_mark_depth -= 1
 
     def _raise(self, code, off, exc):
+        # CPython reports RAISE in every frame an exception travels through; the origin is the
+        # first report of a given exception object (kept alive here so its id cannot be reused).
+        if exc is self._last_exc:
+            return
+        self._last_exc = exc
         if not code.co_filename.startswith(self.pkg):
             return
         tn = type(exc).__name__
         self.raises[f"{tn}@{code.co_qualname}"] += 1
-        if tn == "BlockAbortedException" and code.co_qualname != "Splitter.split":
+        if tn == "BlockAbortedException":
             self.aborts += 1
+
+
+class StepBudgetExceeded(BaseException):
+    """Raised from the PY_START callback when one call into the repository exceeded its logical
+    step budget (bounded-progress monitor; BaseException so that no `except Exception` eats it)."""
 
 
 TRACER = Tracer()
